@@ -24,13 +24,15 @@ import (
 
 	"github.com/fabiolb/fabio/config"
 	"github.com/fabiolb/fabio/proxy"
+	"github.com/fabiolb/fabio/registry/consul"
 	"github.com/fabiolb/fabio/route"
+	"github.com/hashicorp/consul/api"
 
 	"verifharness/internal/vh"
 )
 
 const preamble = `From Coq Require Import String List NArith ZArith.
-From Fabio Require Import Lib.Outcome Lib.Bytes Lib.Pack Model.Redirect Model.RedirectSpec Check.C13.
+From Fabio Require Import Lib.Outcome Lib.Bytes Lib.Pack Model.Redirect Model.RedirectSpec Model.RedirectTag Check.C13.
 Import ListNotations.
 Local Open Scope N_scope.
 `
@@ -956,6 +958,531 @@ func main() {
 		}
 		run.Add("forced-interleaving", vh.App("CSched", vh.List(coqReqs), vh.List(coqSched), vh.List(coqOut)),
 			map[string]interface{}{"routes": text, "requests": reqSample, "schedule": schedSample, "responses": outs})
+	}
+
+	// =====================================================================================
+	// round 5: classes with rand sources of their own (the inputs of the classes above do
+	// not change)
+	// =====================================================================================
+	gc5 := route.NewGlobCache(1000)
+	pick5, match5 := route.Picker["rr"], route.Matcher["prefix"]
+
+	// serveTable: one request through HTTPProxy.ServeHTTP over the table built from lines;
+	// descs[i] describes the target of service svc<i>.
+	serveTable := func(class string, lines []string, descs []tdesc, q rdesc) {
+		text := strings.Join(lines, "\n")
+		tbl, err := route.NewTable(bytes.NewBufferString(text))
+		if err != nil {
+			run.Exclude("route table rejected")
+			return
+		}
+		idOf := map[*route.Target]int{}
+		seen := 0
+		for _, rts := range tbl {
+			for _, rt := range rts {
+				for _, t := range rt.Targets {
+					var id int
+					if _, err := fmt.Sscanf(t.Service, "svc%d", &id); err != nil || id >= len(descs) {
+						continue
+					}
+					descs[id].code = t.RedirectCode
+					idOf[t] = id
+					seen++
+				}
+			}
+		}
+		if seen != len(descs) {
+			run.Exclude("route table rejected") // two routes with the same source collapse into one
+			return
+		}
+		var cands []string
+		for _, c := range route.VerifC13Candidates(tbl, httpReq(q), pick5, match5, gc5) {
+			if c == nil {
+				cands = append(cands, vh.None)
+			} else {
+				cands = append(cands, vh.Some(coqTarget(descs[idOf[c]])))
+			}
+		}
+		tr := &countingRT{}
+		up := -1
+		p := &proxy.HTTPProxy{Config: config.Proxy{}, Transport: tr, Lookup: func(req *http.Request) *route.Target {
+			t := tbl.Lookup(req, "", pick5, match5, gc5, false)
+			if t != nil {
+				fmt.Sscanf(t.Service, "svc%d", &up)
+			}
+			return t
+		}}
+		w := httptest.NewRecorder()
+		panicked, pval := vh.Recover(func() { p.ServeHTTP(w, httpReq(q)) })
+		_, hasLoc := w.Header()["Location"]
+		resp, ok := coqResp(w.Code, w.Header().Get("Location"), hasLoc, tr.n, up, panicked, pval)
+		sample := map[string]interface{}{"routes": text, "host": q.host, "request": uri(q.wire, q.query), "x-forwarded-proto": q.xfp, "tls": q.tls,
+			"status": w.Code, "location": w.Header().Get("Location"), "upstream_hits": tr.n}
+		if !ok {
+			run.Violation(run.NextID(), fmt.Sprintf("ServeHTTP on a redirect table ended in an unclassifiable way (status %d, panic %v)", w.Code, pval), sample)
+			return
+		}
+		run.Add(class, vh.App("CServe", vh.List(cands), vh.HxS(q.wire), coqReq(q), resp, vh.Nat(tr.n)), sample)
+	}
+
+	// ---------- 5a. redirects that differ from the request's URL only in LETTER CASE ----------
+	// "only a redirect that points back at the request's own scheme, host and path is skipped":
+	// the canonical-lower-case redirect (/Docs -> /docs, /API/v1$path -> /api/v1$path) has to be
+	// answered; the same tables with no letter flipped are true self-redirects (skipped).
+	{
+		rj := rand.New(rand.NewSource(run.Seed*7919 + 13))
+		words := []string{"docs", "api", "v1", "users", "intro", "shop", "a", "index.html", "x-y"}
+		flip := func(s string, prob int) string { // flips the case of some letters
+			b := []byte(s)
+			for i, c := range b {
+				if rj.Intn(prob) == 0 {
+					switch {
+					case c >= 'a' && c <= 'z':
+						b[i] = c - 32
+					case c >= 'A' && c <= 'Z':
+						b[i] = c + 32
+					}
+				}
+			}
+			return string(b)
+		}
+		for i := 0; i < run.Scale(220, 5000); i++ {
+			n := 1 + rj.Intn(3)
+			var segsReq []string
+			for k := 0; k < n; k++ {
+				segsReq = append(segsReq, flip(words[rj.Intn(len(words))], 3))
+			}
+			pReq := "/" + strings.Join(segsReq, "/")
+			k := 1 + rj.Intn(n) // the first k segments are the route's path
+			sReq := "/" + strings.Join(segsReq[:k], "/")
+			rest := pReq[len(sReq):]
+			// the target's spelling of the same segments: 1/4 unchanged (a true self-redirect when
+			// scheme and host agree), otherwise some letters flipped
+			sTgt := sReq
+			switch rj.Intn(4) {
+			case 0:
+			case 1:
+				sTgt = strings.ToLower(sReq)
+			default:
+				sTgt = flip(sReq, 2)
+			}
+			host := []string{"example.com", "example.com", "foo.com", "Example.COM", "foo.com:8080"}[rj.Intn(5)]
+			sc := schemes[rj.Intn(2)]
+			// the request's own scheme: mostly that of the template
+			xfp, isTLS := "", sc == "https"
+			switch rj.Intn(6) {
+			case 0:
+				xfp = sc
+				isTLS = rj.Intn(2) == 0
+			case 1:
+				xfp = map[string]string{"http": "https", "https": "http"}[sc]
+			case 2:
+				isTLS = !isTLS
+			}
+			th := []string{"$host", "$host", host, strings.ToLower(host)}[rj.Intn(4)]
+			src := strings.ToLower(host) + sReq
+			if rj.Intn(4) == 0 {
+				src = sReq
+			}
+			var tmpl, strip, prepend string
+			wire := pReq
+			switch rj.Intn(4) {
+			case 0: // static target, the request is for the route's path itself
+				tmpl = sc + "://" + th + sTgt
+				wire = sReq
+				rest = ""
+			case 1: // strip + differently spelled prefix glued to $path
+				tmpl, strip = sc+"://"+th+sTgt+"$path", sReq
+			case 2: // strip + differently spelled prefix, $path after a slash
+				tmpl, strip = sc+"://"+th+sTgt+"/$path", sReq
+				if rest == "" { // /api/v1/$path with an empty rest would end in a slash
+					tmpl = sc + "://" + th + sTgt + "$path"
+				}
+			default: // strip + prepend
+				tmpl, strip, prepend = sc+"://"+th+[]string{"$path", "/$path"}[rj.Intn(2)], sReq, sTgt
+			}
+			_ = rest
+			q, ok := mkReq(host, wire, []string{"", "", "page=2", "x=%20y"}[rj.Intn(4)], xfp, isTLS)
+			if !ok {
+				run.Exclude("request line does not parse")
+				continue
+			}
+			u, err := url.Parse(tmpl)
+			if err != nil {
+				run.Exclude("template does not parse as a URL")
+				continue
+			}
+			opts := "redirect=" + []string{"301", "302", "307", "308"}[rj.Intn(4)]
+			if strip != "" {
+				opts += " strip=" + strip
+			}
+			if prepend != "" {
+				opts += " prepend=" + prepend
+			}
+			lines := []string{fmt.Sprintf("route add svc0 %s %s opts \"%s\"", src, tmpl, opts)}
+			descs := []tdesc{{id: 0, tmpl: tmpl, u: u, strip: strip, prepend: prepend}}
+			switch rj.Intn(4) {
+			case 0: // nothing behind the redirect
+			case 1: // another redirect on the host-less fallback
+				t2 := "https://other.example.org/$path"
+				u2, _ := url.Parse(t2)
+				lines = append(lines, fmt.Sprintf("route add svc1 / %s opts \"redirect=302\"", t2))
+				descs = append(descs, tdesc{id: 1, tmpl: t2, u: u2})
+			default: // an upstream behind it
+				dst := "http://10.0.0.9:80/"
+				u2, _ := url.Parse(dst)
+				lines = append(lines, fmt.Sprintf("route add svc1 / %s", dst))
+				descs = append(descs, tdesc{id: 1, tmpl: dst, u: u2})
+			}
+			serveTable("serve-case-variant", lines, descs, q)
+		}
+	}
+
+	// ---------- 5b. histories through ONE table whose templates have $path INSIDE ----------
+	// ($path in the middle of the template path, with and without $host; $path inside the host
+	// part but not as its suffix): every Location of the history must be the one the request
+	// gets on fresh targets.
+	{
+		rh := rand.New(rand.NewSource(run.Seed*104729 + 7))
+		type hroute5 struct{ src, tmpl, opts string }
+		hHosts := []string{"docs.example.com", "shop.example.com", "foo.com", "FOO.com", "foo.com:8080"}
+		for i := 0; i < run.Scale(100, 2500); i++ {
+			sc := schemes[rh.Intn(2)]
+			rs := []hroute5{
+				{"/docs", sc + "://docs.example.com/$path/index.html", []string{"", "strip=/docs"}[rh.Intn(2)]}, // the documented-looking "directory index" form
+				{"/m", sc + "://bar.com/pre/$path/tail" + []string{"", "?x=1"}[rh.Intn(2)], []string{"", "strip=/m", "prepend=/pp"}[rh.Intn(3)]},
+				{"/mh", sc + "://$host/v2/$path/end", ""},           // $host and $path in the middle
+				{"/hp", sc + "://$path.bar.com/y", ""},             // $path inside the host, not as its suffix: stays as written
+				{"/hq", sc + "://a$pathb.com/$path/z", ""},         // both
+				{"/hm", sc + "://$path.bar.com/q/$path/r", ""},     // $path inside the host and in the middle of the path
+				{"/e", sc + "://bar.com" + []string{"/$path", "$path", "/bbb$path"}[rh.Intn(3)], ""}, // $path at the end (as in class history-one-table)
+				{"/up", "http://10.0.0.9:80/", "-"},
+			}
+			var lines []string
+			var descs []tdesc
+			for id, hr := range rs {
+				u, err := url.Parse(hr.tmpl)
+				if err != nil {
+					panic(err)
+				}
+				d := tdesc{id: id, tmpl: hr.tmpl, u: u}
+				if hr.opts == "-" {
+					lines = append(lines, fmt.Sprintf("route add svc%d %s %s", id, hr.src, hr.tmpl))
+				} else {
+					opts := "redirect=" + []string{"301", "302", "307", "308"}[rh.Intn(4)]
+					if hr.opts != "" {
+						opts += " " + hr.opts
+						kv := strings.SplitN(hr.opts, "=", 2)
+						if kv[0] == "strip" {
+							d.strip = kv[1]
+						} else {
+							d.prepend = kv[1]
+						}
+					}
+					lines = append(lines, fmt.Sprintf("route add svc%d %s %s opts \"%s\"", id, hr.src, hr.tmpl, opts))
+				}
+				descs = append(descs, d)
+			}
+			text := strings.Join(lines, "\n")
+			tbl, err := route.NewTable(bytes.NewBufferString(text))
+			if err != nil {
+				run.Exclude("route table rejected")
+				continue
+			}
+			idOf := map[*route.Target]int{}
+			for _, rts := range tbl {
+				for _, rt := range rts {
+					for _, t := range rt.Targets {
+						var id int
+						fmt.Sscanf(t.Service, "svc%d", &id)
+						descs[id].code = t.RedirectCode
+						idOf[t] = id
+					}
+				}
+			}
+			tr := &countingRT{}
+			p := &proxy.HTTPProxy{Config: config.Proxy{}, Transport: tr, Lookup: func(req *http.Request) *route.Target {
+				return tbl.Lookup(req, "", pick5, match5, gc5, false)
+			}}
+			var steps []string
+			var hist []interface{}
+			bad := false
+			prefixes := []string{"/docs", "/docs", "/m", "/m", "/mh", "/hp", "/hq", "/hm", "/e", "/up", "/other"}
+			n := 3 + rh.Intn(6)
+			prev := ""
+			for k := 0; k < n && !bad; k++ {
+				host := hHosts[rh.Intn(len(hHosts))]
+				pre := prefixes[rh.Intn(len(prefixes))]
+				if prev != "" && rh.Intn(2) == 0 { // the same route again, with another path / query / host
+					pre = prev
+				}
+				prev = pre
+				wire := randWire(rh, pre)
+				if rh.Intn(3) == 0 {
+					wire = pre + fmt.Sprintf("/page-%d", k)
+				}
+				q, ok := mkReq(host, wire, queries[rh.Intn(len(queries))], []string{"", "", "http", "https"}[rh.Intn(4)], rh.Intn(3) == 0)
+				if !ok {
+					run.Exclude("request line does not parse")
+					continue
+				}
+				var cands []string
+				for _, c := range route.VerifC13Candidates(tbl, httpReq(q), pick5, match5, gc5) {
+					if c == nil {
+						cands = append(cands, vh.None)
+					} else {
+						cands = append(cands, vh.Some(coqTarget(descs[idOf[c]])))
+					}
+				}
+				before := tr.n
+				w := httptest.NewRecorder()
+				panicked, pval := vh.Recover(func() { p.ServeHTTP(w, httpReq(q)) })
+				hits := tr.n - before
+				up := -1
+				if hits > 0 {
+					up = len(rs) - 1 // the only upstream of the table
+				}
+				_, hasLoc := w.Header()["Location"]
+				resp, ok := coqResp(w.Code, w.Header().Get("Location"), hasLoc, hits, up, panicked, pval)
+				step := map[string]interface{}{"host": q.host, "request": uri(q.wire, q.query), "x-forwarded-proto": q.xfp, "tls": q.tls, "status": w.Code, "location": w.Header().Get("Location"), "upstream_hits": hits}
+				hist = append(hist, step)
+				if !ok {
+					run.Violation(run.NextID(), fmt.Sprintf("ServeHTTP in a request history ended in an unclassifiable way (status %d, panic %v)", w.Code, pval),
+						map[string]interface{}{"routes": text, "history": hist})
+					bad = true
+					break
+				}
+				steps = append(steps, "("+coqReq(q)+", "+vh.HxS(q.wire)+", "+vh.List(cands)+", "+resp+", "+vh.Nat(hits)+")")
+			}
+			if bad || len(steps) == 0 {
+				continue
+			}
+			run.Add("history-path-inside", vh.App("CHistory", vh.List(steps)), map[string]interface{}{"routes": text, "history": hist})
+		}
+	}
+
+	// ---------- 5c. END TO END from consul tags ----------
+	// tag -> the real routecmd.build -> route.NewTable -> HTTPProxy.ServeHTTP.  Each service
+	// registers one urlprefix tag.  The Coq side reads template, code, strip and prepend off the
+	// TEXT of the tag (Model/RedirectTag.v) and judges status and Location by the reference loop
+	// and expected_location of that template.
+	{
+		rc := rand.New(rand.NewSource(run.Seed*15485863 + 3))
+		const prefix = "urlprefix-"
+		env := map[string]string{"DC": "dc1"}
+		cHosts := []string{"www.foo.com", "$host", "$host", "www.$host", "bar.com:8443", "$host:8443"}
+		cPaths := []string{"$path", "$path", "/$path", "/new$path", "/new/$path", "/$path/index.html", "", "/", "/fixed/page"}
+		cQueries := []string{"", "", "", "?v=2"}
+		cCodes := []string{"301", "302", "303", "307", "308", "301", "303", "300", "399", "200", "400", "3x1"}
+		srcHosts := []string{"", "", "example.com", "Example.COM", "$DC.bar.com", "*.example.com"}
+		srcPaths := []string{"/", "/path", "/tls", "/old", "/Docs", "/a/b"}
+		reqHostFor := map[string][]string{
+			"":              {"example.com", "other.org", "foo.com:8080"},
+			"example.com":   {"example.com", "example.com", "other.org"},
+			"Example.COM":   {"example.com", "EXAMPLE.com"},
+			"$DC.bar.com":   {"dc1.bar.com", "dc1.bar.com", "dc2.bar.com"},
+			"*.example.com": {"a.example.com", "shop.example.com", "example.com"},
+		}
+		type ctag struct {
+			tag      string
+			redirect bool
+			tmpl     string
+			strip    string
+			prepend  string
+		}
+		mkRedirectTag := func(src string, srcPath string) ctag {
+			tmpl := schemes[rc.Intn(2)] + "://" + cHosts[rc.Intn(len(cHosts))] + cPaths[rc.Intn(len(cPaths))] + cQueries[rc.Intn(len(cQueries))]
+			if rc.Intn(5) == 0 { // the forms of the documentation, literally
+				tmpl = []string{"https://www.foo.com$path", "https://$host$path", "https://www.google.com/", "https://www.bar.com$path"}[rc.Intn(4)]
+			}
+			ct := ctag{redirect: true, tmpl: tmpl}
+			fields := []string{"redirect=" + cCodes[rc.Intn(len(cCodes))] + "," + tmpl}
+			if srcPath != "/" && rc.Intn(3) == 0 {
+				ct.strip = srcPath
+				fields = append(fields, "strip="+srcPath)
+			}
+			if rc.Intn(5) == 0 {
+				ct.prepend = "/pre"
+				fields = append(fields, "prepend=/pre")
+			}
+			if rc.Intn(5) == 0 {
+				fields = append(fields, "tlsskipverify=true")
+			}
+			rc.Shuffle(len(fields), func(a, b int) { fields[a], fields[b] = fields[b], fields[a] })
+			if rc.Intn(6) == 0 { // proto= BEFORE the redirect option: the redirect's url wins
+				at := 0
+				for k, f := range fields {
+					if strings.HasPrefix(f, "redirect=") {
+						at = rc.Intn(k + 1)
+					}
+				}
+				fields = append(fields[:at], append([]string{"proto=https"}, fields[at:]...)...)
+			}
+			sep := func() string {
+				if rc.Intn(8) == 0 {
+					return "  "
+				}
+				return " "
+			}
+			tag := prefix + src
+			for _, f := range fields {
+				tag += sep() + f
+			}
+			switch rc.Intn(8) {
+			case 0:
+				tag = " " + tag
+			case 1:
+				tag = tag + "  "
+			}
+			ct.tag = tag
+			return ct
+		}
+		for i := 0; i < run.Scale(260, 6000); i++ {
+			sh := srcHosts[rc.Intn(len(srcHosts))]
+			sp := srcPaths[rc.Intn(len(srcPaths))]
+			tags := []ctag{mkRedirectTag(sh+sp, sp)}
+			if rc.Intn(4) == 0 { // a second redirect service on the host-less fallback
+				tags = append(tags, mkRedirectTag("/", "/"))
+			}
+			switch rc.Intn(3) {
+			case 0: // an ordinary service behind them
+				tags = append(tags, ctag{tag: prefix + "/"})
+			case 1:
+				tags = append(tags, ctag{tag: prefix + sp + " tlsskipverify=true"})
+			}
+			if len(tags) > 1 && tags[0].tag == tags[1].tag {
+				continue
+			}
+			// the consul catalog entries and the real route commands
+			var cmds []string
+			panicked := false
+			for k, ct := range tags {
+				svc := &api.CatalogService{ServiceName: fmt.Sprintf("svc%d", k), ServiceAddress: fmt.Sprintf("10.0.0.%d", k+1), ServicePort: 8000 + k,
+					ServiceTags: []string{ct.tag}}
+				if rc.Intn(4) == 0 {
+					svc.ServiceTags = []string{"v1", ct.tag}
+				}
+				var out []string
+				if p, pv := vh.Recover(func() { out = consul.VerifC14Build(svc, prefix, env) }); p {
+					run.Violation(run.NextID(), fmt.Sprintf("routecmd.build panicked on a redirect tag: %v", pv), ct.tag)
+					panicked = true
+					break
+				}
+				cmds = append(cmds, out...)
+			}
+			if panicked {
+				continue
+			}
+			text := strings.Join(cmds, "\n")
+			tbl, err := route.NewTable(bytes.NewBufferString(text))
+			if err != nil {
+				run.Violation(run.NextID(), fmt.Sprintf("route.NewTable rejects the commands generated from redirect tags: %v", err), map[string]interface{}{"tags": tags, "commands": cmds})
+				continue
+			}
+			realOf := map[int]*route.Target{}
+			dup := false
+			for _, rts := range tbl {
+				for _, rt := range rts {
+					if len(rt.Targets) > 1 { // two services on one route: the picker would choose
+						dup = true
+					}
+					for _, t := range rt.Targets {
+						var id int
+						if _, err := fmt.Sscanf(t.Service, "svc%d", &id); err == nil {
+							if realOf[id] != nil {
+								dup = true
+							}
+							realOf[id] = t
+						}
+					}
+				}
+			}
+			if dup {
+				run.Exclude("consul services collapse into one route")
+				continue
+			}
+			// the request
+			hs := reqHostFor[sh]
+			host := hs[rc.Intn(len(hs))]
+			lead := sp
+			if rc.Intn(6) == 0 {
+				lead = ""
+			}
+			wire := randWire(rc, strings.TrimSuffix(lead, "/"))
+			if rc.Intn(4) == 0 && lead != "" {
+				wire = lead
+			}
+			xfp, isTLS := "", false
+			switch rc.Intn(6) {
+			case 0:
+				xfp = "https"
+			case 1:
+				isTLS = true
+			case 2:
+				xfp = "http"
+			}
+			q, ok := mkReq(host, wire, queries[rc.Intn(len(queries))], xfp, isTLS)
+			if !ok {
+				run.Exclude("request line does not parse")
+				continue
+			}
+			// per tag: text, the generator's view, the real target
+			var coqTags []string
+			var tagSample []string
+			bad := false
+			for k, ct := range tags {
+				gen := vh.None
+				if ct.redirect {
+					u, err := url.Parse(ct.tmpl)
+					if err != nil {
+						bad = true
+						break
+					}
+					gen = vh.Some(coqTarget(tdesc{id: k, u: u, strip: ct.strip, prepend: ct.prepend}))
+				}
+				real := vh.None
+				if t := realOf[k]; t != nil {
+					real = vh.Some(vh.App("mkTarget", vh.Nat(k), vh.HxS(t.URL.Scheme), vh.HxS(t.URL.Host), vh.HxS(t.URL.Path), vh.HxS(t.URL.RawQuery),
+						vh.HxS(t.StripPath), vh.HxS(t.PrependPath), vh.Z(int64(t.RedirectCode))))
+				}
+				coqTags = append(coqTags, "("+vh.HxS(ct.tag)+", "+gen+", "+real+")")
+				tagSample = append(tagSample, ct.tag)
+			}
+			if bad {
+				run.Exclude("template does not parse as a URL")
+				continue
+			}
+			var cands []string
+			for _, c := range route.VerifC13Candidates(tbl, httpReq(q), pick5, match5, gc5) {
+				if c == nil {
+					cands = append(cands, vh.None)
+					continue
+				}
+				var id int
+				fmt.Sscanf(c.Service, "svc%d", &id)
+				cands = append(cands, vh.Some(vh.Nat(id)))
+			}
+			tr := &countingRT{}
+			up := -1
+			p := &proxy.HTTPProxy{Config: config.Proxy{}, Transport: tr, InsecureTransport: tr, Lookup: func(req *http.Request) *route.Target {
+				t := tbl.Lookup(req, "", pick5, match5, gc5, false)
+				if t != nil {
+					fmt.Sscanf(t.Service, "svc%d", &up)
+				}
+				return t
+			}}
+			w := httptest.NewRecorder()
+			pn, pval := vh.Recover(func() { p.ServeHTTP(w, httpReq(q)) })
+			_, hasLoc := w.Header()["Location"]
+			resp, ok := coqResp(w.Code, w.Header().Get("Location"), hasLoc, tr.n, up, pn, pval)
+			sample := map[string]interface{}{"tags": tagSample, "commands": cmds, "host": q.host, "request": uri(q.wire, q.query), "x-forwarded-proto": q.xfp, "tls": q.tls,
+				"status": w.Code, "location": w.Header().Get("Location"), "upstream_hits": tr.n}
+			if !ok {
+				run.Violation(run.NextID(), fmt.Sprintf("ServeHTTP on a table built from consul tags ended in an unclassifiable way (status %d, panic %v)", w.Code, pval), sample)
+				continue
+			}
+			run.Add("consul-tag-redirect", vh.App("CConsul", vh.HxS(prefix), vh.List(coqTags), vh.List(cands), vh.HxS(q.wire), coqReq(q), resp, vh.Nat(tr.n)), sample)
+		}
 	}
 
 	run.Finish(preamble, (len(run.Cases)+15)/16+1)
